@@ -1015,7 +1015,7 @@ def tree_ranges(tree, n=0):
     return out, n
 
 
-def gen_opt_program(rng, refs=False, exprs=False):
+def gen_opt_program(rng, refs=False, exprs=False, glyph_bw=False):
     """Family 'optional' (C07): rules with optional single items, groups, nested and adjacent groups in the context,
     combined with substitutions, deletions, '^', and (refs=True) selectors/associations that may point into groups."""
     prog = Prog()
@@ -1111,7 +1111,7 @@ def gen_opt_program(rng, refs=False, exprs=False):
                 top_items = [e + 1 for e in tree if isinstance(e, int) and items[e].cls is not None and not (items[e].out and items[e].out[0] == "del")]
                 for j, it in enumerate(items):
                     if it.mod and it.cls is not None and (it.out is None or it.out[0] == "cls") and top_items and rng.random() < 0.7:
-                        ctx = {"refs": [q for q in top_items if q != j + 1], "own": True, "nuser": 4, "ngattr": 0}
+                        ctx = {"refs": [q for q in top_items if q != j + 1], "own": True, "nuser": 4, "ngattr": 0, "glyphbw": glyph_bw}
                         if ctx["refs"] and rng.random() < 0.4:
                             # a conditional whose two branches read two (possibly different) other items
                             tc, ic = gen_bool_expr(rng, ctx, 0)
@@ -1123,7 +1123,7 @@ def gen_opt_program(rng, refs=False, exprs=False):
                             t, ir_ = gen_int_expr(rng, ctx, rng.choice([1, 2, 3]))
                         it.attrs.append(("user%d" % rng.randint(1, 4), "=", t, ir_))
                     if it.cls is not None and j + 1 in top_items and rng.random() < 0.25:
-                        ctx = {"refs": [q for q in top_items if q != j + 1], "own": True, "nuser": 4, "ngattr": 0}
+                        ctx = {"refs": [q for q in top_items if q != j + 1], "own": True, "nuser": 4, "ngattr": 0, "glyphbw": glyph_bw}
                         it.constraint = gen_bool_expr(rng, ctx, 1)
             rules.append(r)
         passes.append(rules)
@@ -1443,6 +1443,9 @@ def gen_int_expr(rng, ctx, depth):
             n = rng.choice(INTERESTING)
             return (str(n) if n >= 0 else "(%d)" % n), {"k": "lit", "v": n}
         pre = "@%d." % slot if slot else ""
+        if ctx.get("glyphbw") and slot is None and rng.random() < 0.3:
+            # the glyph-table value of an attribute that is a slot attribute too: `glyph.breakweight` (attribute 1000 of the IR)
+            return "glyph.breakweight", {"k": "gattr", "slot": None, "a": 1000}
         if k < 0.75 or ctx["ngattr"] == 0:
             i = rng.randrange(ctx["nuser"])
             return pre + "user%d" % (i + 1), {"k": "user", "slot": slot, "i": i}
